@@ -46,6 +46,35 @@ CHECKS.update({
          "message compared with the model.",
     design="5/C06", technique="Coq proof (outcome classification by case analysis of the pipeline, termination measures) + differential correspondence with time limits"),
 })
+CHECKS.update({
+ "C09": dict(
+    text="Theorems over a universe of dynamic Python values (None/bool/int/float/str/tuple/list): the validator model accepts a description "
+         "iff it satisfies the ten documented rules (WFdoc), every malformed description inside the universe yields ValueError with the first "
+         "message the code raises (never a result), boundary lemmas (index n and -1, bool is int), and the batch runner records "
+         "'Error while solving the game: <msg>' and continues. Correspondence: every rule x every position x boundary values on host games, "
+         "outcome class and message, through solve (both modes) and run_games.",
+    design="5/C09", technique="Coq proof (validator = declarative WF predicate, first-error lemmas) + mutation-by-rule differential correspondence"),
+ "C15": dict(
+    text="Theorems over an abstract random source: the board has L rows of W entries, rewards in [0,max], loose flags in {0,1} with "
+         "loose <-> draw < p, arrows in the allowed set with a down-only tile per row exactly under force-down; check_input accepts iff all "
+         "eight documented range conditions hold, and which message is raised first; a refused parameter set never reaches the file write. "
+         "The Mersenne Twister stream and libm log are oracles: reproducibility is covered by correspondence (same board twice in a process "
+         "and across processes) and the model is replayed on the actual draws.",
+    design="5/C15", technique="Coq proof over an abstract random source + differential correspondence on replayed draws + CLI boundary runs"),
+ "C16": dict(
+    text="Theorems: the report is one 15-line block per result entry in order, line k = fixed label ++ rendering of field k, 'Are equal' is "
+         "structural equality of the two strategy values, splitting at the label and parsing returns the field (under the repr/eval round-trip "
+         "hypothesis), the report of dir/stem.py is outputs/stem.txt. Correspondence: full report text vs the model's rendering; every line "
+         "re-parsed equals the run_games value; the reader is compared with an independent safe evaluator on all repository inputs.",
+    design="5/C16", technique="Coq proof (string layout/readback lemmas) + differential correspondence on report text"),
+ "C17": dict(
+    text="Theorems: for every k in 1..99 the binary64 nearest k/100 is printed as k (finite sweep by vm_compute lifted with forallb_forall, "
+         "bound stated); the file name is the documented layout and two whole-percent parameter sets (all naturals) with equal names are equal "
+         "(decimal numerals followed by a non-digit are uniquely decodable), likewise for the manual entry point; the original truncation is "
+         "refuted (k=29). Correspondence of prob_to_str and of the created path through the CLI.",
+    design="5/C17", technique="Coq proof (finite binary64 sweep + injectivity of decimal rendering) + differential correspondence via the CLI",
+    note="Print Assumptions lists only the kernel's PrimFloat/PrimInt63 primitives for the theorems that compute with binary64."),
+})
 PENDING = {}
 def main():
     props = [json.loads(l) for l in open(os.path.join(VERIF, "properties.jsonl"))]
